@@ -106,6 +106,8 @@ def generate(rng, n, tier):
             x = _samples(rng, k)
             w, ex = _weights(rng, k)
             tol = rng.choice([0.0, 0.0, 0.0, 0.125, 0.25])
+            if rng.random() < 0.08:
+                x = [v + 2.0 ** 20 for v in x]      # a large common offset (exactly representable): variance and spread are those of the scatter
             yield dict(kind=kind, x=x, w=w, exact=ex, tol=tol, order=rng.choice([0, 1, 2, 2, 3, 4]),
                        f=[rng.choice([0, 0, 1, -1, 0.5]), rng.choice([1, -1, 2, 0, -0.5]), rng.choice([0, 1, -2.5])])
         elif kind == "impose":
